@@ -32,16 +32,30 @@ correspondence      L-ev projected on diagnostics (severity, label spans, order)
                     on every case of (a), (b), (c) under its extension set and converter; the answers of
                     unicase, serde_yaml, the converter and char::is_alphanumeric are shipped with the case.
                     Cases whose report holds a parser error are compared on that fact only (the analysis
-                    diagnostics are discarded then)."""
+                    diagnostics are discarded then).
+inventory           every run REGENERATES coq/Gen/DiagSites.v from the non-test code of /repo/src/{parser,analysis,
+                    lexer}/*.rs, metadata.rs, lib.rs and error.rs (gen/gen_diags.py): every place where a diagnostic
+                    is made or pushed, as (stage, file, fn, how, severity of the macro, push methods, ordinal in the
+                    fn, message) without line numbers.  The entries WITHOUT their message are pinned by the obligation
+                    C07_diag_inventory and mapped to the constructors of the models by Model/DiagMap.v (severities,
+                    coverage: C07_diag_*).  A diagnostic that is added, dropped, moved, or whose severity / push
+                    method changes breaks the obligations (the build of Properties/C07.vo fails) and is reported
+                    entry by entry with the messages; moving code and rewording a message do not.  The severity and
+                    stage the catalogue expects of each construct are held against the PINNED table
+                    (cat.inventory_cross_check over the rows of Model/DiagMap.v), never against the tree being judged."""
 import json
 import os
 import random
 import subprocess
+import sys
 
 from vlib import common
 from vlib.common import hx
 from checks import parser_common as pc
 from checks import c07_catalog as cat
+
+sys.path.insert(0, os.path.join(common.VERIF, "gen"))
+import gen_diags  # noqa: E402
 
 PID = "C07"
 LAYER = "L-ev (diagnostics) + L-diag (analysis diagnostics) + L-rec report monitor"
@@ -346,11 +360,44 @@ def replay_of(c, extra=None):
     return d
 
 
+# ------------------------------------------------------------------ the inventory of diagnostics
+
+def inventory():
+    """regenerate Gen/DiagSites.v; -> (stats for the evidence, what is wrong: list of (what, replay dict))"""
+    inv = gen_diags.regenerate()
+    expected = gen_diags.expected_sites()
+    new, gone = gen_diags.diff(inv["items"], expected)
+    held, cat_bad = cat.inventory_cross_check(gen_diags.pinned_table())
+    st = {"sites": len(inv["items"]), "expected": None if expected is None else len(expected),
+          "file_rewritten": inv["changed"], "new": new, "gone": gone,
+          "by_stage": {k: sum(1 for it in inv["items"] if it["stage"] == k) for k in ("Parse", "Analysis", "AnyStage")},
+          "by_how": {k: sum(1 for it in inv["items"] if it["how"] == k) for k in sorted(set(it["how"] for it in inv["items"]))},
+          "catalogue_entries_held_against_pinned_list": held, "catalogue_disagreements": cat_bad,
+          "samples": ["%s:%d %s" % (it["path"], it["line"], gen_diags.show_key(gen_diags.key_of(it), it["msg"])[:200])
+                      for it in inv["items"][8:9] + inv["items"][40:41] + inv["items"][-1:]]}
+    bad = []
+    if expected is None:
+        bad.append(("Properties/C07.v has no theorem C07_diag_inventory", {}))
+    elif new or gone:
+        what = ("the diagnostics made by the code (%s) are not those listed by C07_diag_inventory:\n    %s"
+                % (common.REPO, "\n    ".join(gone + new)))
+        bad.append((what, {"new": new, "gone": gone,
+                           "unchecked": "which constructor of the models stands for each diagnostic of the code, and "
+                                        "its severity (Model/DiagMap.v) <-> src/parser, src/analysis, src/error.rs"}))
+    if cat_bad:
+        bad.append(("the catalogue of checks/c07_catalog.py and the list of C07_diag_inventory disagree:\n    %s"
+                    % "\n    ".join(cat_bad), {"catalogue_disagreements": cat_bad}))
+    for what, _ in bad:
+        common.log("  " + what)
+    return st, bad
+
+
 # ------------------------------------------------------------------ the check
 
 def run(rep, tier, seed):
     rng = random.Random(seed)
     quick = tier == "quick"
+    inv_stats, inv_bad = inventory()      # before the audit: Properties/C07.vo depends on the regenerated file
     paths = pc.prepare(need_release=False)
     bindir = common.build_harness(["recipe", "adiag"])
     adiag_runner = build_adiag()
@@ -478,12 +525,20 @@ def run(rep, tier, seed):
     common.decide(rep, PID, LAYER, audit, hits, dis, tier,
                   "correspondence Model/Parser.v <-> src/parser on diagnostics (severity, labels, order) and "
                   "Model/AnalysisDiag.v <-> src/analysis/event_consumer.rs on the analysis diagnostics")
+    if not hits:
+        # a changed inventory without an input on which the property fails (with one, the input is the report and
+        # the difference is in the log and in the evidence)
+        for what, rp in inv_bad:
+            rep.violation(what, dict(rp, layer="inventory of diagnostics (gen/gen_diags.py -> Gen/DiagSites.v)"),
+                          found_input=False)
     common.proof_coverage(rep, PID, audit, tier,
                           "the diagnostics of the pull parser (Model/Parser.v: code, severity, label spans - message "
                           "wording is not modelled) and the way parse_events/PassResult combine the stages "
                           "(Model/Diag.v); the analysis pass (Model/Analysis.v, L-rec of C06) decorated with its 24 "
                           "diagnostics, their severity and ordered labels (Model/AnalysisDiag.v, L-diag here); "
-                          "custom validators of ParseOptions are not modelled (default options)")
+                          "custom validators of ParseOptions are not modelled (default options); which place of the "
+                          "code each constructor stands for is a hand table (Model/DiagMap.v) over the inventory that "
+                          "gen/gen_diags.py reads from the source on every run (token level)")
     missing = sorted(k for k in cat.CLASSES if not per_class.get(k))
     distinct = set(c["text"] for c in catalog + doubles) | set(c["text"] for c in sound if any(ch in c["text"] for ch in "@#~"))
     samples = []
@@ -551,6 +606,7 @@ def run(rep, tier, seed):
         "analysis_diagnostics_correspondence": ldiag,
         "correspondence_cases_with_model_diagnostics": model_diag_cases,
         "monitor_violations": len(hits), "exhaustive": False,
+        "diagnostic_inventory": inv_stats,
     })
     if missing and not hits:
         rep.violation("catalogue classes never exercised: %s" % ", ".join(missing), {"missing": missing},
@@ -559,10 +615,16 @@ def run(rep, tier, seed):
         "well-formedness is the generator's (gen/grec.py documents which constructs it emits); the expected "
         "severity of each construct is read off the code and extensions.md (checks/c07_catalog.py)",
         "the deprecation notice is recognised by shape (Analysis warning whose labels all lie on `>>` lines), not by wording",
-        "custom validators of ParseOptions are not exercised (default options)"]
+        "custom validators of ParseOptions are not exercised (default options): the five diagnostics they make have no "
+        "constructor in the models (C07_diag_unmodelled lists them, with float()'s parse error)",
+        "the inventory of diagnostics is a token-level scan (error!/warning!, SourceDiag::error/warning/unlabeled, "
+        ".into_source_diag, struct literals with a severity field, .error(/.warn( and ctx|report.push( of anything else); "
+        "a SourceDiag built in another way, or pushed through a receiver with another name, is not seen; which "
+        "constructor an entry maps to (Model/DiagMap.v) is read off the source by hand"]
 
 
 def setup():
+    gen_diags.regenerate()
     pc.prepare(need_release=False)
     common.build_harness(["recipe", "adiag"])
     build_adiag()
@@ -571,8 +633,14 @@ def setup():
 def replay(rp):
     r = rp["replay"]
     if "input_hex" not in r:
-        print("nothing to replay: " + rp.get("what", ""))
-        return 1
+        # a broken obligation / a changed inventory without a failing input: regenerate, rebuild the obligations
+        st, bad = inventory()
+        audit = common.audit_property_file(PID)
+        print("diagnostic inventory: %d sites (pinned: %s)" % (st["sites"], st["expected"]))
+        for l in st["gone"] + st["new"] + st["catalogue_disagreements"]:
+            print("  " + l)
+        print("obligations: %d/%d %s" % (audit["discharged"], audit["obligations"], "; ".join(audit["failed"])))
+        return 0 if audit["ok"] and not bad else 1
     bindir = common.build_harness(["recipe", "events", "adiag"])
     line = "%s %s %s\n" % (r["input_hex"], r.get("ext", 0), r.get("conv", "e"))
     if r.get("ldiag"):
